@@ -15,6 +15,14 @@ CLAIMS = {
    technique="loop transition-function extraction (one iteration of RelevantElements.Process as a decision list over boolean loop state) + call ordering (must-pass-through) + layering (who-may-call) + loop/promotion rules",
    text="Decides that the retention automaton for non-text elements is exactly: content element opens a run, dropped text closes it, any other element is retained iff the run is open; that the filters run in the fixed order after text classification; that the lead-image promotion is a single SetIsContent(true) outside loops over candidates that are dropped images/figures before the last retained text; and that nobody else writes the content flag. This is the structural form of 'retained iff the nearest preceding text block is retained, plus at most one lead image'. Not decided: scorer arithmetic and the classifier's choice of text blocks.",
    design="4/C08"),
+ "C10": dict(
+   technique="whole-program provenance & effects analysis (summary-based may-write analysis over go/ssa with symbolic parameter regions, deferred higher-order calls, VTA call graph)",
+   text="Decides for all inputs, options and entry points that no store, in-place append, copy or mutating library call reachable from Apply/ApplyForReader/ApplyForFile/ApplyForURL can target memory of the caller's node tree, Options value or URL. A may-analysis: it can only over-report, every report names the store and the call chain. Positive controls (known mutators must be seen mutating; dom.Clone must be classified fresh) guard against vacuity.",
+   design="3.1, 4/C10"),
+ "C12": dict(
+   technique="provenance & effects analysis for writes to package-level state + caller arguments; scan for goroutines/channels/sync in module code; import scan",
+   text="Decides race-freedom structurally for all interleavings: (G1) no write to memory reachable from a package-level variable on any path from the entry points (except sync.Once-guarded initialisation), (G2) shared arguments are only read, (G3) no concurrency inside the module so per-call memory is private, (G4) no unsafe/reflect/cgo. Together these imply that two calls share no location that either writes, hence no data race and no cross-call influence.",
+   design="4/C12"),
  "C14": dict(
    technique="static decision-list extraction + guard-cut/ordering rules on SSA (accessor order, OpenGraph gate, first-non-empty getters, opt-out dominance, field/getter agreement)",
    text="Decides the combinator skeleton of the metadata precedence for all inputs: accessor list order [OpenGraph only if complete, schema.org, IE], each getter returns the first non-empty answer of the same-named accessor method, opt-out yields the zero record, and each record field is filled from the same-named source. Not decided: what each of the three parsers extracts from a document.",
